@@ -7,7 +7,7 @@
     histories (fillers + [write_config]) is checked by evaluation of the executable oracle
     [exact_all] on the model and on the real library for every generated history; see DESIGN.md. *)
 Require Import Sedpack.Model.Base Sedpack.Generated.GenMerge Sedpack.Model.Filler Sedpack.Model.Meta.
-Require Import Sedpack.Proofs.MergeBasics Sedpack.Proofs.MergeProofs Sedpack.Proofs.HistoryProofs Sedpack.Proofs.ReachProofs.
+Require Import Sedpack.Proofs.MergeBasics Sedpack.Proofs.MergeProofs Sedpack.Proofs.HistoryProofs Sedpack.Proofs.ReachProofs Sedpack.Proofs.NoDupProofs.
 
 (** For every fuel, every non-empty list of updates below a common directory [p] (of depth
     [c]), and every file system whose list documents below [p] are locally well formed (what
@@ -52,6 +52,14 @@ Theorem c04_no_shard_unlisted :
   exists li sh, dget info s = Some li /\ li_dir li = [s] /\ List.In sh (dfs FUEL fs [s]) /\ sh_dir sh = s :: t /\ sh_name sh = n.
 Proof. exact history_all_shards_listed. Qed.
 Print Assumptions c04_no_shard_unlisted.
+
+(** All of it together, as the executable oracle [exact_all] that the harness evaluates on the model and audits on the real
+    directory after every session of every generated history: for every shard size and every history that completes, every
+    split summary is exact for its subtree AND no shard is listed twice AND no stored shard is unlisted. *)
+Theorem c04_every_history_satisfies_exact_all :
+  forall eps : nat, 1 <= eps -> forall (h : list session) (fs : fsT) (info : dinfo), run_history eps h = Ok (fs, info) -> exact_all fs info = true.
+Proof. exact history_exact_all. Qed.
+Print Assumptions c04_every_history_satisfies_exact_all.
 
 (** Non-vacuity and a whole-history instance: nested, reused and multi-writer sessions into two
     splits end in a state that the executable exactness oracle accepts (all counts, totals, child
